@@ -230,7 +230,17 @@ def run_residue(case):
             plain = Residue(f, **dict(kw, full_output=False))(z0)
     except Exception as ex:
         return dict(error='%s: %s' % (type(ex).__name__, str(ex)[:160]))
-    return dict(val=complex(val), est=float(np.max(info.error_estimate)), want=cfac * gz, order=int(R.order), arr=[complex(a) for a in np.ravel(arr)], plain=complex(plain))
+    # several poles of different modulus in one call (each element has its own nominal step): the residue of exp(z)/(z - z0_j)^p at z0_j
+    mixed = None
+    if not np.iscomplexobj(z0) or np.imag(z0) == 0:
+        zs = np.array([np.real(z0), np.real(z0) + 2.0, -(abs(np.real(z0)) + 1.25)])
+        try:
+            with np.errstate(all='ignore'):
+                mv, mi = Residue(lambda z: cfac * np.exp(z) / (z - zs) ** p, **kw)(zs)
+            mixed = [float(np.max(np.abs(np.asarray(mv) - cfac * np.exp(zs)) / np.abs(cfac * np.exp(zs)))), float(np.max(mi.error_estimate))]
+        except Exception as ex:
+            mixed = 'raised %s: %s' % (type(ex).__name__, str(ex)[:100])
+    return dict(val=complex(val), est=float(np.max(info.error_estimate)), want=cfac * gz, order=int(R.order), arr=[complex(a) for a in np.ravel(arr)], plain=complex(plain), mixed=mixed)
 
 
 def run(tier, rep):
@@ -363,6 +373,11 @@ def run(tier, rep):
                           '%s: without full_output the residue is %r, with it %r' % (name, o['plain'], o['val']))
         elif max(abs(a - o['want']) for a in o['arr']) > KR * o['est'] * 10 + floor * 10:
             rep.violation('residue-array', dict(case=name, got=[[a.real, a.imag] for a in o['arr']]), '%s: array z0 gives %s' % (name, o['arr']))
+        elif isinstance(o.get('mixed'), str):
+            rep.violation('raises:residue', dict(case=name), '%s with an array of three different poles %s' % (name, o['mixed']))
+        elif o.get('mixed') and not o['mixed'][0] <= 1e-6 + KR * o['mixed'][1]:
+            rep.violation('residue-array:mixed', dict(case=name, relative_error=o['mixed'][0], error_estimate=o['mixed'][1]),
+                          '%s: exp(z)/(z - z0_j)^p at three poles of different modulus in one call: worst relative error %.3g, error_estimate %.3g' % (name, o['mixed'][0], o['mixed'][1]))
     if os.environ.get('VERIF_SURVEY'):
         surv.sort(reverse=True)
         for t in surv[:25]:
